@@ -25,7 +25,7 @@ from sim.sftpsim import SftpSession, Faults
 
 PROPERTY = "C29"
 LEVEL = "fault_enumeration"
-BUDGET = {"quick": {"runs": 1400, "wall": 45}, "thorough": {"runs": 60000, "wall": 570}}
+BUDGET = {"quick": {"runs": 2600, "wall": 45}, "thorough": {"runs": 60000, "wall": 570}}
 RULE = ("Each run: one connection, 2 transfers; operation from put/putfo/putfo-from-short-reading-stream/get/getfo/"
         "pipelined-writes, size from chunk-boundary list, fault from none / k-th read or write rejected with one of 7 "
         "status codes / short reads / link lost at the k-th request; k enumerated over all chunk positions for files of "
@@ -81,7 +81,7 @@ def gen_case(sim):
         size = 100000
     nchunks = max(1, -(-size // CHUNK))
     is_put = op in ("put", "putfo", "putfo_dribble", "pipelined_writes")
-    fk = sim.choose(8)
+    fk = sim.choose(10)
     fault = None
     if fk in (1, 2, 3):
         k = sim.choose(nchunks + 1) if nchunks <= 8 else sim.choose(nchunks + 1)
@@ -89,9 +89,12 @@ def gen_case(sim):
         fault = ["reject", "write" if is_put else "read", k, codes[sim.choose(len(codes))]]
     elif fk == 4 and not is_put:
         fault = ["short_reads"]
-    elif fk == 5:
-        fault = ["cut", "write" if is_put else "read", sim.choose(nchunks + 1), ("eof", "reset")[sim.choose(2)]]
-    elif fk == 6:
+    elif fk in (5, 8):
+        # 5th element: 0 = the link goes while the k-th request is served (no answer), else so many virtual
+        # microseconds later: the answer still arrives and the loss is noticed as the client sends its next request
+        fault = ["cut", "write" if is_put else "read", sim.choose(nchunks + 1), ("eof", "reset")[sim.choose(2)],
+                 (0, 0, 1, 30, 300, 3000)[sim.choose(6)]]
+    elif fk in (6, 9):
         # the link is lost at an instant unrelated to the server's progress (virtual microseconds after the
         # start of the transfer), so that it can also fall between two requests, while the client is about to send
         fault = ["cut_at", "any", (20, 100, 300, 1000, 3000, 10000, 40000, 150000)[sim.choose(8)] + sim.choose(97),
@@ -174,7 +177,7 @@ def run_case(sim, s, faults, case, idx):
         elif f[0] == "short_reads":
             faults.p_short_read = 0.4
         elif f[0] == "cut":
-            faults.cut_at = (f[1], f[2], f[3])
+            faults.cut_at = (f[1], f[2], f[3], f[4] if len(f) > 4 else 0)
         elif f[0] == "cut_at":
             timed = {"fired": False}
 
